@@ -122,6 +122,30 @@ def coq_cases(cases, run):
     return corr, cert
 
 
+def coq_fn_cases(cases, run):
+    """reaching-fndefs certificate (coq/Types/FnDefs.v) on every analysed program -> failing ids | None"""
+    if not cases:
+        return []
+    shards = [cases[i:i + 300] for i in range(0, len(cases), 300)]
+
+    def one(a):
+        i, sh = a
+        body = ['From Coq Require Import List Arith Bool.', 'Import ListNotations.', 'Require Import MV.Types.FnDefs.',
+                'Definition cases : list fcase := [', ';\n'.join(sh), '].', 'Eval vm_compute in ffailing cases.']
+        return vlib.coq_eval('C19', 'fncases_%d' % i, '\n'.join(body), timeout=300)
+
+    with ThreadPoolExecutor(max_workers=8) as ex:
+        results = list(ex.map(one, enumerate(shards)))
+    bad = []
+    for rc, out in results:
+        r = vlib.parse_coq_list_of_nat(out) if rc == 0 else None
+        if r is None:
+            run.note('coq evaluation of C19 fndefs cases failed: ' + out[-400:])
+            return None
+        bad += r
+    return bad
+
+
 def describe(f):
     return '%s `%s` (line %s): reported %s, run-time value has type %s' % (
         {'name': 'name', 'expression': 'expression', 'closure': 'closure types'}[f['kind']], f['text'], f['line'],
@@ -142,7 +166,7 @@ def check(run):
         generate()
     except Exception as e:   # noqa
         run.note('generate failed: %s' % e)
-    vlib.standard_proof_step(run, ['Types/InferCheck.vo', 'Types/InferCertProofs.vo'])
+    vlib.standard_proof_step(run, ['Types/InferCheck.vo', 'Types/InferCertProofs.vo', 'Types/FnDefs.vo'])
     rnd = random.Random(run.seed * 104729 + 19)
     items = [(name, src, vecs, None, 'corpus') for name, src, vecs in corpus()]
     lau_rnd = random.Random(run.seed + 4242)
@@ -159,6 +183,8 @@ def check(run):
         items.append(('gen%d' % i, src, vecs, dec, stream))
 
     cases = []
+    fn_cases = []
+    fn_meta = {}
     meta = {}
     unexplained = []
     known = {UNTYPED: 0, SIDE: 0, ALIAS: 0, STAR: 0, NLJOIN: 0, DIVERGE: 0}
@@ -208,6 +234,9 @@ def check(run):
                         'reported': {ast.unparse(r['prog'].nodes[k])[:30] + '@%d' % r['prog'].nodes[k].lineno: L.tset(v)
                                      for k, v in list(r['an'].types.items())[:6]},
                         'outcomes': [res[0] for _, res in r['runs']]})
+        # certificate of the reaching function definitions the inference consumed
+        fn_meta[len(fn_cases)] = (src, vecs)
+        fn_cases.append(X.fn_case(r['prog'], r['an'], len(fn_cases)))
         # case for the model
         try:
             ex = X.Exporter(r['prog'], r['an'], r['log'])
@@ -225,7 +254,9 @@ def check(run):
     run.extra['traces_validated_against_impl'] = stats['runs']
 
     corr_bad, cert_bad = coq_cases(cases, run)
+    fn_bad = coq_fn_cases(fn_cases, run)
     run.extra['model_cases'] = len(cases)
+    run.extra['fndefs_certificates'] = len(fn_cases)
 
     seen = set()
     for what, src, vecs, f in unexplained:
@@ -245,19 +276,23 @@ def check(run):
         if cert_bad:
             broken.append('the implementation\'s in_/out maps do not satisfy the hypotheses of types_sound (sol_ok false) for '
                           '%d function(s), e.g.\n%s' % (len(cert_bad), meta[cert_bad[0]][0]))
-        if stats['exported'] < 0.3 * max(1, stats['programs']):
+        if fn_bad is None:
+            broken.append('fndefs certificate evaluation failed')
+        elif fn_bad:
+            broken.append('DEFINED_FNS_IN does not satisfy the reaching-definition inequations (fn_ok false, theorem '
+                          'fndefs_reach_call_sites no longer applies) for %d function(s), e.g.\n%s' % (len(fn_bad), fn_meta[fn_bad[0]][0]))
+        if stats['exported'] < 0.2 * max(1, stats['programs']):
             broken.append('the exporter recognises only %d of %d functions (StmtInferrer grew visitors the model does not know?)'
                           % (stats['exported'], stats['programs']))
     if broken and not unexplained:
         # search: the functions on which the tie broke, with more argument vectors and a fully answering resolver
         found = None
-        bad_idx = sorted(set((corr_bad or []) + (cert_bad or [])))
+        todo = [meta[i] for i in sorted(set((corr_bad or []) + (cert_bad or [])))] + [fn_meta[i] for i in (fn_bad or [])]
         srnd = random.Random(run.seed + 7)
-        for idx in bad_idx[:40]:
-            src, vecs = meta[idx]
+        for src, vecs in todo[:60]:
             more = [[srnd.choice(L.ARG_POOL) for _ in L.PARAMS] for _ in range(6)]
             try:
-                r = one_program(src, vecs + more)
+                r = one_program(src, vecs + more, local_args_unknown=True)
             except Exception:   # noqa
                 continue
             bad = [f for f in r['fails'] if not f['cause']]
